@@ -703,7 +703,10 @@ def table_iterations(prog):
             if cs.callee.name != "map" or len(cs.args) != 2:
                 continue
             src = strip(cs.args[0])
-            while isinstance(src, tuple) and src and src[0] == "call" and src[1].name in ("iter", "skip", "take", "rev", "into_iter", "deref", "cloned", "copied") and src[2]:
+            while isinstance(src, tuple) and src and src[0] == "call" and src[1].name in (
+                    "iter", "skip", "take", "rev", "into_iter", "deref", "cloned", "copied",
+                    # a range of the table taken as a slice: `tab[a..b]`, `tab.get(a..b).unwrap_or(&[])`
+                    "index", "get", "unwrap_or", "unwrap_or_default", "unwrap", "expect", "as_slice", "flatten") and src[2]:
                 src = strip(src[2][0])
             tab = show(src)
             which = "var_to_pos" if tab.endswith("var_to_pos") else ("pos_to_var" if tab.endswith("pos_to_var") else None)
